@@ -8,5 +8,6 @@ g = os.path.join(ROOT, "tools", "gen_constants.py")
 if os.path.exists(g):
     subprocess.check_call([sys.executable, g], cwd=ROOT)
 rc1 = subprocess.call(["cargo", "build", "--offline"], cwd=os.path.join(ROOT, "harness"), env=env)
-rc2 = subprocess.call(["lake", "build"], cwd=os.path.join(ROOT, "lean"), env=env)
+props = sorted("NomtModel.Props." + f[:-5] for f in os.listdir(os.path.join(ROOT, "lean", "NomtModel", "Props")) if f.endswith(".lean"))
+rc2 = subprocess.call(["lake", "build", "NomtModel", "nomt_model"] + props, cwd=os.path.join(ROOT, "lean"), env=env)
 sys.exit(1 if (rc1 or rc2) else 0)
